@@ -11,7 +11,7 @@
    Representable(v) = "encoding/json has a counterpart". *)
 EXTENDS Integers, Sequences, FiniteSets, TLC, Json, CSV, IOUtils
 
-CONSTANTS MaxLen, Part     \* Part: "accept" | "trees"
+CONSTANTS MaxLen, Part     \* Part: "accept" | "strbody" | "near" | "trees"; for "near" MaxLen is the number of edits (1 or 2)
 
 Syms == <<"{", "}", "[", "]", ":", ",", "q", "b", "a", "1", "0", "-", ".", "e", "T", "N", " ", "U", "V", "W">>
 NS == Len(Syms)
@@ -46,7 +46,7 @@ Number(s, i) ==
 RECURSIVE Value(_,_,_), Elems(_,_,_), Members(_,_,_)
 Value(s, i0, d) ==
   LET i == SkipWs(s, i0)  c == Sy(s, i) IN
-  IF d > MaxLen + 1 THEN 0
+  IF d > (IF Part = "near" THEN 16 ELSE MaxLen + 1) THEN 0
   ELSE LET r == CASE c = "q" -> StrBody(s, i + 1)
                   [] c \in {"T", "N"} -> i + 1
                   [] c \in {"-", "0", "1"} -> Number(s, i)
@@ -83,23 +83,65 @@ Trees2 == Trees1 \cup [k : {"arr"}, a : Leaves, b : Leaves] \cup [k : {"arr1"}, 
 LeavesOf(t) == CASE t.k = "leaf" -> {t.v} [] t.k \in {"arr", "map"} -> {t.a, t.b} [] OTHER -> {t.a}
 Representable(t) == LeavesOf(t) \cap Unrepresentable = {}
 
+(* ---- near-valid documents ----
+   Valid skeleton documents covering every construct (members, elements, nesting,
+   white space, numbers with fraction and exponent, escapes), each changed by one
+   or two single-symbol edits: insertion of any symbol at any position, deletion,
+   replacement.  This is where hand-written scanners go wrong (a trailing comma,
+   a missing colon, a second point), at lengths the exhaustive part cannot reach. *)
+Skel == << <<"{", "q", "q", ":", "1", "}">>,
+           <<"{", "q", "a", "q", ":", "1", ",", "q", "q", ":", "T", "}">>,
+           <<"[", "1", ",", "0", "]">>,
+           <<"[", "{", "q", "q", ":", "N", "}", ",", "[", "1", "]", "]">>,
+           <<"{", "q", "q", ":", "{", "q", "q", ":", "[", "]", "}", "}">>,
+           <<"{", "q", "q", ":", "[", "1", ",", "{", "}", "]", "}">>,
+           <<"-", "1", ".", "0", "e", "-", "1">>,
+           <<"q", "b", "W", "a", "b", "q", "q">>,
+           <<" ", "{", " ", "q", "q", " ", ":", " ", "1", " ", ",", " ", "q", "a", "q", " ", ":", " ", "0", " ", "}", " ">>,
+           <<"[", " ", "]">>,
+           <<"[", "q", "q", ",", "q", "a", "q", "]">>,
+           <<"[", "[", "[", "T", "]", "]", "]">>,
+           <<"T">>, <<"0">> >>
+SymIdx(x) == CHOOSE i \in 1..NS : Syms[i] = x
+SkelDoc(d) == [i \in 1..Len(Skel[d]) |-> SymIdx(Skel[d][i])]
+MaxSkel == 22
+\* an edit: t = 0 none, 1 insert y after position p, 2 delete position p, 3 replace position p by y
+EditOK(s, e) == CASE e.t = 0 -> e.p = 0 /\ e.y = 1
+                  [] e.t = 1 -> e.p \in 0..Len(s)
+                  [] e.t = 2 -> e.p \in 1..Len(s) /\ e.y = 1
+                  [] OTHER   -> e.p \in 1..Len(s) /\ e.y # s[e.p]
+Edit(s, e) == CASE e.t = 0 -> s
+                [] e.t = 1 -> SubSeq(s, 1, e.p) \o <<e.y>> \o SubSeq(s, e.p + 1, Len(s))
+                [] e.t = 2 -> SubSeq(s, 1, e.p - 1) \o SubSeq(s, e.p + 1, Len(s))
+                [] OTHER   -> [s EXCEPT ![e.p] = e.y]
+EditSet == [t : 0..3, p : 0..(MaxSkel + 1), y : 1..NS]
+NoEdit == [t |-> 0, p |-> 0, y |-> 1]
+
 VARIABLES c, ph
 vars == <<c, ph>>
 \* string bodies: longer strings over the symbols that matter inside a string (escapes, surrogates)
 StrSyms == {8, 9, 10, 15, 18, 19, 20}     \* b a 1 T U V W
 Init == ph = 0 /\ (CASE Part = "accept" -> c \in [n : 0..MaxLen, s : [1..MaxLen -> 1..NS]]
                       [] Part = "strbody" -> c \in [n : 0..MaxLen, s : [1..MaxLen -> StrSyms]]
+                      [] Part = "near" -> c \in [d : 1..Len(Skel), e1 : EditSet, e2 : {NoEdit}] /\ EditOK(SkelDoc(c.d), c.e1)
                       [] OTHER -> c \in Trees2)
 Judge == ph = 0 /\ ph' = 1 /\ UNCHANGED c
-Next == Judge
+\* the second edit of a near-valid document is a step (TLC computes initial states single-threaded)
+Edit2 == /\ ph = 0 /\ Part = "near" /\ MaxLen >= 2 /\ c.e1.t # 0
+         /\ \E e \in EditSet : e.t # 0 /\ EditOK(Edit(SkelDoc(c.d), c.e1), e) /\ c' = [c EXCEPT !.e2 = e]
+         /\ ph' = 1
+Next == Judge \/ Edit2
 Spec == Init /\ [][Next]_vars
 Str == [i \in 1..c.n |-> c.s[i]]
 Canon == Part \in {"accept", "strbody"} => \A i \in (c.n + 1)..MaxLen : c.s[i] = (IF Part = "accept" THEN 1 ELSE 8)
 \* a string body is wrapped in quotes
-Doc == IF Part = "strbody" THEN <<7>> \o [i \in 1..c.n |-> c.s[i]] \o <<7>> ELSE [i \in 1..c.n |-> c.s[i]]
+Doc == IF Part = "near" THEN Edit(Edit(SkelDoc(c.d), c.e1), c.e2) ELSE
+       IF Part = "strbody" THEN <<7>> \o [i \in 1..c.n |-> c.s[i]] \o <<7>> ELSE [i \in 1..c.n |-> c.s[i]]
 \* sanity of the grammar itself: a document never ends inside a string or after a comma
 Sane == (ph = 1 /\ Part = "accept" /\ Canon /\ Accepts(Str)) => (c.n > 0 /\ Syms[c.s[c.n]] \notin {",", ":", "b", "-", ".", "e", "{", "["})
+\* the skeletons are valid documents, or the catalogue is wrong
+ASSUME SkelValid == Part = "near" => \A d \in 1..Len(Skel) : Accepts(SkelDoc(d))
 Export == (ph = 1 /\ Canon) =>
-   CSVWrite("%1$s", <<ToJson(IF Part \in {"accept", "strbody"} THEN [k |-> "doc", s |-> [i \in 1..Len(Doc) |-> Syms[Doc[i]]], accept |-> Accepts(Doc)]
+   CSVWrite("%1$s", <<ToJson(IF Part \in {"accept", "strbody", "near"} THEN [k |-> "doc", s |-> [i \in 1..Len(Doc) |-> Syms[Doc[i]]], accept |-> Accepts(Doc)]
                             ELSE [k |-> "tree", t |-> c, representable |-> Representable(c)])>>, IOEnv.OUT)
 =============================================================================
